@@ -381,3 +381,10 @@ PROPS["C02"] = {
          "only_tiers": ["thorough"], "fuzztime": {"thorough": "120s"}, "workers": 16, "timeout": {"thorough": 900}},
     ],
 }
+
+PROPS["C01"] = {
+    "custom": "c01",
+    "level": "exploration",
+    "rule": "see c01.py",
+    "units": [],
+}
